@@ -7,8 +7,22 @@ use crate::subject::{CmpObs, Obs, Subject};
 use crate::value::Value;
 
 fn check_views(s: &dyn Subject, raw: &Value, rep: &mut DeclReport) {
-    let Some(v) = s.views(raw) else { return };
+    let v = match crate::subject::guarded(|| s.views(raw)) {
+        Ok(Some(v)) => v,
+        Ok(None) => return,
+        Err(p) => {
+            rep.violate("view-panics", raw.show(), format!("PANIC({p})"), "the inner value's view".into(), String::new());
+            return;
+        }
+    };
+    check_views_obs(v, raw, rep, "")
+}
+
+fn check_views_obs(v: crate::subject::Views, raw: &Value, rep: &mut DeclReport, how: &str) {
     let Some(stored) = v.stored.clone() else { return };
+    if !how.is_empty() && stored != *raw {
+        rep.violate("new_unchecked-stores-a-different-value", raw.show(), stored.show(), raw.show(), String::new());
+    }
     let mut one = |name: &str, got: &Option<Value>| {
         if let Some(g) = got {
             rep.executions += 1;
@@ -179,10 +193,50 @@ pub fn run(s: &dyn Subject, ctx: &Ctx) -> Option<DeclReport> {
                 continue;
             }
         }
-        if let Some(o) = s.cmp2(a, b) {
-            check_cmp(&o, a, b, &mut rep);
-        } else {
-            break;
+        match crate::subject::guarded(|| s.cmp2(a, b)) {
+            Ok(Some(o)) => check_cmp(&o, a, b, &mut rep),
+            Ok(None) => break,
+            Err(p) => rep.violate("comparison-panics", format!("({}, {})", a.show(), b.show()), format!("PANIC({p})"), "what the inner values answer".into(), String::new()),
+        }
+    }
+    // declarations carrying `new_unchecked`: whatever was stored through it (valid or not) is exposed and compared transparently
+    // (Ord::cmp is left out: a total order is only promised for values the guards admit)
+    if only.is_none() {
+        let mut n = 0u64;
+        for raw in &dom {
+            match crate::subject::guarded(|| s.views_unchecked(raw)) {
+                Ok(Some(v)) => {
+                    check_views_obs(v, raw, &mut rep, "unchecked");
+                    n += 1;
+                }
+                Ok(None) => break,
+                Err(p) => rep.violate("view-panics(unchecked value)", raw.show(), format!("PANIC({p})"), "the inner value's view".into(), String::new()),
+            }
+        }
+        if n > 0 {
+            let mut rng = Rng::new(ctx.seed ^ 0xC13A).derive(&spec.id);
+            let mut upairs: Vec<(Value, Value)> = Vec::new();
+            for i in 0..dom.len() {
+                upairs.push((dom[i].clone(), dom[i].clone()));
+                if i + 1 < dom.len() {
+                    upairs.push((dom[i].clone(), dom[i + 1].clone()));
+                    upairs.push((dom[i + 1].clone(), dom[i].clone()));
+                }
+            }
+            for _ in 0..2000 {
+                upairs.push((rng.pick(&dom).clone(), rng.pick(&dom).clone()));
+            }
+            for (a, b) in &upairs {
+                match crate::subject::guarded(|| s.cmp2_unchecked(a, b)) {
+                    Ok(Some(o)) => {
+                        check_cmp(&o, a, b, &mut rep);
+                        rep.guard("unchecked_pairs_compared");
+                    }
+                    Ok(None) => break,
+                    Err(p) => rep.violate("comparison-panics(unchecked value)", format!("({}, {})", a.show(), b.show()), format!("PANIC({p})"), "what the inner values answer".into(), String::new()),
+                }
+            }
+            rep.guard_add("unchecked_values_viewed", n);
         }
     }
     if let Some(r) = valid.first() {
